@@ -25,7 +25,9 @@ telemetry writer's own guard and the sidecar writer's own guard -/
 theorem C20_FailSoft_quality_table : ∀ p ∈ qualitySites, guardedAll p.1 p.2 = true := by decide
 
 /-- Scope note, machine-checked: these calls are NOT in the property's list and are bare calls in the
-current source (`gel_observe`, `gel_tick`, `write_snapshot` inside `apply_changes`, health check). -/
+current source (`write_snapshot` inside `apply_changes`, health check).  (`gel_observe` / `gel_tick` were in this
+list until fix `C20_gel_observe_tick_fail_soft`: a foreign snapshot with a malformed GEL edge record made the decay
+pass abort every turn.) -/
 theorem C20_observed_unguarded : ∀ s ∈ observedUnguarded, guardOf s = false := by decide
 
 /-- The store hooks the snapshot writer and the boot loader call (`store.export_state()`, `store.import_state()`)
@@ -55,16 +57,16 @@ def cfgAll : Cfg :=
 
 def st0 : St := ⟨.num 0, false, none, false, 0, false⟩
 
-/-- every declared site failing at once (exception ids 1…17) -/
+/-- every declared site failing at once (exception ids 1…19) -/
 def envAllFail : Env :=
   { envOk with
-    bootLoad := .error 1, mergeCand := .error 2, applyMerge := fun _ => .error 3, splitCand := .error 4,
+    gelObserve := .error 18, gelTick := .error 19, bootLoad := .error 1, mergeCand := .error 2, applyMerge := fun _ => .error 3, splitCand := .error 4,
     applySplit := fun _ => .error 5, promote := .error 6, applyPromo := fun _ => .error 7, reflectRun := none,
     reflect := .error 9, reflectWrite := .error 10, reflectLog := .error 11, adapterBuild := .error 12,
     t3Trace := .error 13, invalidate := fun _ => .error 14, storeBatch := fun _ => .error 15,
     storeOne := fun d => if d = 1 then .error 16 else .ok (1, 0), sidecar := .error 17 }
 
-example : isOk (runTurn guardOf cfgAll { envOk with gelTick := .error 5 } st0) = false := by decide
+example : isOk (runTurn guardOf cfgAll { envOk with health := .error 5 } st0) = false := by decide
 example : isOk (runTurn guardOf cfgAll { envOk with snapBody := .error 5 } st0) = false := by decide
 
 /-! ### 2. the turn completes -/
@@ -150,6 +152,22 @@ theorem C20_gel_maintenance_off (g : Site → Bool) (c : Cfg) (e : Env) (k : Cor
   rfl
 
 example : (gelBody cfgAll envAllFail).2.1 = some (.gelMergeCand, 2) := by decide
+
+/-- GEL observe / decay tick: a failing pass contributes what the pass switched off contributes (no `gel`
+record, working set untouched, turn goes on). -/
+theorem C20_gel_observe_fail_eq_off (g : Site → Bool) (c : Cfg) (e : Env) (k : Core) (x : Exc)
+    (hf : e.gelObserve = .error x) (hg : g .gelObserve = true) :
+    proj (phGelObserve g c e k) = proj (phGelObserve g { c with graphEnabled := false } e k) := by
+  by_cases hc : (c.graphEnabled && !c.dryRun) = true
+  · simp [phGelObserve, hc, hf, hg, cont, proj, canonLogs]
+  · simp [phGelObserve, hc, cont, proj]
+
+theorem C20_gel_tick_fail_eq_off (g : Site → Bool) (c : Cfg) (e : Env) (k : Core) (x : Exc)
+    (hf : e.gelTick = .error x) (hg : g .gelTick = true) :
+    proj (phGelTick g c e k) = proj (phGelTick g { c with graphEnabled := false } e k) := by
+  by_cases hc : (c.t4Enabled && c.graphEnabled) = true
+  · simp [phGelTick, hc, hf, hg, cont, proj, canonLogs]
+  · simp [phGelTick, hc, cont, proj]
 
 /-- boot load: any failure (any file content that makes the loader raise) leaves the state at its defaults;
 only `_boot_loaded` is set. -/
